@@ -64,6 +64,7 @@ def strip_comments_and_strings(src):
     return src
 
 
+REPR_ENUMS = {"UnackedMessage", "Packet"}
 ENUM_DECL = re.compile(r"(?m)^(?P<ind>[ \t]*)(?P<vis>pub(?:\([^)]*\))?\s+)?enum\s+\w+")
 
 
@@ -75,6 +76,13 @@ def add_enum_repr(src):
     pos = 0
     n = 0
     for m in ENUM_DECL.finditer(src):
+        name = m.group(0).split()[-1]
+        # whitelist: Kani 0.68 mis-models writes through `&mut` variant bindings of an explicit-repr
+        # enum that holds a model set (ReliableOrder: spurious failures, caught by native playback),
+        # so only the enums whose tag matters for feasibility - and whose lemmas were cross-checked by
+        # native playback - are tagged
+        if name not in REPR_ENUMS:
+            continue
         # look at the attribute lines directly above
         head = src[:m.start()]
         prev = head.rstrip().splitlines()[-3:] if head.strip() else []
@@ -128,7 +136,7 @@ def stage(dest, crate, bytes_model="len", cap=2, qcap=2, max_clients=None, repla
         s = _read(p)
         info["files"] += 1
         s = s.replace("#[cfg(test)]", "#[cfg(all(test, not(kani)))]")
-        s, n_enum = add_enum_repr(s)
+        s, n_enum = add_enum_repr(s) if crate == "renet" else (s, 0)
         info["enums_tagged"] = info.get("enums_tagged", 0) + n_enum
         if models:
             try:
